@@ -28,6 +28,9 @@ func init() {
 		"fmt.Errorf": modelErrorf,
 		"errors.New": modelErrorsNew,
 		"errors.Is":  modelErrorsIs,
+		"subtle.ConstantTimeCompare": modelCTCompare,
+		"context.Context.Err":        modelCtxErr,
+		"context.Cause":              modelCtxCause,
 	}
 }
 
@@ -119,6 +122,44 @@ func modelBytesClone(ex *Exec, st *State, fn *types.Func, args []*Val, e *ast.Ca
 	name, _ := ex.memName(tByte)
 	st.heaps[name] = ite(isNil, m, store(m, ref, arr))
 	return []*Val{{T: args[0].T, Term: r}}, true
+}
+
+func modelCTCompare(ex *Exec, st *State, fn *types.Func, args []*Val, e *ast.CallExpr) ([]*Val, bool) {
+	trusted(ex, "library contract: subtle.ConstantTimeCompare(x,y)==1 iff x and y have equal length and equal contents, else 0")
+	x, y := args[0].Term, args[1].Term
+	m := ex.mem(st, tByte)
+	sx := ex.strOf(sel(m, ex.sRef(x)), ex.sOff(x), ex.sLen(x))
+	sy := ex.strOf(sel(m, ex.sRef(y)), ex.sOff(y), ex.sLen(y))
+	return []*Val{{T: tInt, Term: ite(eq(sx, sy), intLit(1), intLit(0))}}, true
+}
+
+// ---- contexts: "done" is ghost state that may flip to true at any time
+// and never flips back.
+
+func (ex *Exec) ctxDone(st *State, c *Term) *Term {
+	return sel(ex.heap(st, "CtxDone", arrSort(SInt, SBool)), c)
+}
+
+func (ex *Exec) setCtxDone(st *State, c *Term, v *Term) {
+	h := ex.heap(st, "CtxDone", arrSort(SInt, SBool))
+	st.heaps["CtxDone"] = store(h, c, v)
+}
+
+func modelCtxErr(ex *Exec, st *State, fn *types.Func, args []*Val, e *ast.CallExpr) ([]*Val, bool) {
+	trusted(ex, "library contract: a context's done-ness is monotone; Err()!=nil iff done at that moment; receiving from Done() implies done; Cause()!=nil once done")
+	c := args[0].Term
+	r := ex.freshVal(st, "ctxerr", tErr)
+	st.assume(implies(ex.ctxDone(st, c), not(eq(r.Term, intLit(0)))))
+	ex.setCtxDone(st, c, not(eq(r.Term, intLit(0))))
+	return []*Val{r}, true
+}
+
+func modelCtxCause(ex *Exec, st *State, fn *types.Func, args []*Val, e *ast.CallExpr) ([]*Val, bool) {
+	c := args[0].Term
+	r := ex.freshVal(st, "ctxcause", tErr)
+	st.assume(implies(ex.ctxDone(st, c), not(eq(r.Term, intLit(0)))))
+	ex.setCtxDone(st, c, not(eq(r.Term, intLit(0))))
+	return []*Val{r}, true
 }
 
 // ---- errors
@@ -258,7 +299,13 @@ func modelLock(ex *Exec, st *State, fn *types.Func, args []*Val, e *ast.CallExpr
 		g := ex.evalSpecBool(st, c.Expr, u, fmt.Sprintf("%s:%d lockinv %s", c.File, c.Line, c.Label))
 		st.assume(g)
 	}
-	if lu := st.lastUnlock[key]; lu != nil {
+	if lu := st.lastUnlock[key]; lu == nil {
+		for _, c := range ls.Fresh {
+			g := ex.evalSpecBool(st, c.Expr, u, fmt.Sprintf("%s:%d fresh %s", c.File, c.Line, c.Label))
+			st.assume(g)
+			trusted(ex, "ghost activation tokens are unique: at an activation's first Lock no slot is owned by it ("+key+" fresh clause "+c.Label+")")
+		}
+	} else {
 		st.old = lu
 		for _, c := range ls.Rely {
 			g := ex.evalSpecBool(st, c.Expr, u, fmt.Sprintf("%s:%d rely %s", c.File, c.Line, c.Label))
